@@ -343,6 +343,83 @@ class C13(SeqCheck):
         return sum(1 for x in o if x.startswith("0")) >= 2 and sum(1 for x in o if x and x[0] in "123" and not x.startswith("0")) >= 1
 
 
+class C14(SeqCheck):
+    pid = "C14"
+    harness = "delay"
+    hbin = "h_delay"
+    test_binary = True
+    model_entry = "rdelay_model"
+    oracle_entry = "delay_oracle"
+    overlay = {"vnet/verif_export.go": "vnet/verif_export.go"}
+    quick_n = 600
+    thorough_n = 20000
+    shards = 6
+    design_ref = "4 (C14)"
+    technique = "Coq proof about the router's delay loop (lower bound, FIFO-once, progress for every wake-up time) + exact virtual-time differential check; DelayFilter and jittering router: extracted Spec oracle on observed logs"
+    level_text = ("Coq theorems about the model of Router.processChunks' delay logic: at any wake-up only chunks older than min_delay leave, in queue "
+                  "order, each once, and the loop then sleeps exactly until the next head is due (C14_router_*). Tied to the code in a synctest bubble "
+                  "(no jitter: every chunk must leave exactly min_delay after its push). For the router with jitter and for DelayFilter the extracted "
+                  "Spec oracle (never early, per-sender arrival order, exactly once, all forwarded, no panic) is applied to logs of real-time runs with "
+                  "1-3 concurrent senders and arrivals spaced around the delay value, delay 0 included")
+    level_note = ("partial: the DelayFilter interleavings are explored by real scheduling, not by a controlled scheduler, and its interleaving model is not "
+                  "proved in Coq yet; 'eventually forwarded' is checked as 'forwarded within 2 s'; timer delivery and goroutine scheduling are the Go runtime's")
+    rule = ("mode 0 (2/5): router, delays 0/0.5/1/5/30 ms, 5-45 pushes spaced 0, 1 ns, delay-1, delay, delay+1, 3*delay, random, virtual time; mode 1 (1/5): "
+            "router with jitter 0.2-1 ms in real time; mode 2 (2/5): DelayFilter, delays 0/0.5/1/2 ms, 1-3 senders, gaps 0, delay, delay+50us, random; "
+            "non-trivial = at least 3 chunks forwarded; distinct = distinct (mode, delay, arrival log)")
+    trusted = ["overlay file harness/overlay/vnet/verif_export.go (router with sink NIC, DelayFilter with sink)", "testing/synctest fake clock (mode 0)"]
+    assumptions = ["arrival order is defined per sender", "real-time modes: the arrival stamp is taken just before the chunk is handed to the filter/router"]
+
+    def model_entry_for(self, conf):
+        return "rdelay_model" if conf.split()[0] == "0" else None
+
+    def oracle_codes_for(self, pid):
+        return 15
+
+    def is_nontrivial(self, conf, ops, obs):
+        return len(segs(obs)) >= 3
+
+    def code_legend(self):
+        return ("flags (summed): 1 = forwarded earlier than arrival + delay, 2 = order differs from the sender's arrival order / duplicate / unknown, "
+                "4 = a chunk was never forwarded, 8 = the forwarding loop panicked")
+
+
+class C15(SeqCheck):
+    pid = "C15"
+    diff_is_violation = True
+    harness = "tbf"
+    hbin = "h_tbf"
+    test_binary = True
+    model_entry = "tbf_model"
+    oracle_entry = None
+    overlay = {"vnet/verif_export.go": "vnet/verif_export.go"}
+    quick_n = 3000
+    thorough_n = 100000
+    shards = 12
+    design_ref = "4 (C15)"
+    technique = "Coq proof (window bound by telescoping over all runs incl. run-time rate/burst changes; FIFO conservation; discard rule) + exact virtual-time differential check"
+    level_text = ("Coq theorems about an exact-arithmetic model of TokenBucketFilter: from any arrival on, bytes forwarded <= burst + max rate * elapsed "
+                  "(C15_rate_bound, every window, every continuation incl. Set(rate/burst)); forwarded ++ queued = accepted in arrival order; a chunk is "
+                  "discarded iff the byte queue is full. Tied to the code in synctest bubbles: arrivals at exact virtual instants, the set of chunks "
+                  "forwarded at each arrival is compared with the model's")
+    level_note = ("trusted: Coq kernel, extraction + driver, harness, synctest clock; the code's float64 arithmetic is modelled by exact integers (units of "
+                  "1/(8e9) byte): an arrival whose forward decision sits at an exact equality that float rounding could flip is declared ambiguous by the "
+                  "model and not compared (counted in the evidence)")
+    rule = ("rates 8k..10M bit/s, bursts 1..64000 B, queue 0/1500/3000/20000/50000 B; 10-90 arrivals with gaps 0, 1 ns, 99/100/101 ms, 1 ms, one burst-time, "
+            "1-2 s idle, random < 30 ms; sizes 4, burst, burst+-1, 2*burst, 1500, random; Set(rate)/Set(burst) at random points; 4 flush arrivals 20 s apart; "
+            "non-trivial = at least 3 chunks forwarded; distinct = distinct (config, events)")
+    trusted = ["overlay file harness/overlay/vnet/verif_export.go (filter with sink NIC)", "testing/synctest fake clock"]
+    assumptions = ["time stamps never decrease", "float64 rounding is not modelled (ambiguous arrivals skipped)"]
+
+    def model_postprocess(self, line, model_obs):
+        if "-7" in model_obs.replace("|", " ").split():
+            self.ambiguous = getattr(self, "ambiguous", 0) + 1
+            return split3(line)[2]
+        return model_obs
+
+    def is_nontrivial(self, conf, ops, obs):
+        return sum(len(x.split()) for x in segs(obs)) >= 3
+
+
 class C16(SeqCheck):
     pid = "C16"
     diff_is_violation = True
@@ -377,6 +454,6 @@ class C16(SeqCheck):
         return any(x.startswith("1") for x in o) and any(x.startswith("0") for x in o)
 
 
-REGISTRY = {"C02": C02, "C03": C03, "C04": C04, "C05": C05, "C06": C06, "C07": C07, "C09": C09, "C13": C13, "C16": C16, "C18": C18, "C20": C20}
+REGISTRY = {"C02": C02, "C03": C03, "C04": C04, "C05": C05, "C06": C06, "C07": C07, "C09": C09, "C13": C13, "C14": C14, "C15": C15, "C16": C16, "C18": C18, "C20": C20}
 
 NOT_CLAIMED = {}
